@@ -56,6 +56,22 @@ class DType:
         return hash(self.name)
 
 
+def f64_round_int(x):
+    """the integer value of float64(x) for an integer |x| < 2**63 (round to nearest, ties to even) - integer arithmetic only, so x may be symbolic"""
+    a = x if x >= 0 else -x
+    if a < 2**53:
+        return x
+    for k in range(53, 64):
+        if a < 2**(k + 1):
+            q = 2**(k - 52)
+            r = a % q
+            base = a - r
+            if r * 2 > q or (r * 2 == q and (base // q) % 2 == 1):
+                base += q
+            return base if x >= 0 else -base
+    raise Unsupported("integer beyond 64 bits")
+
+
 def _flatten(x, shape_out):
     """nested lists -> (shape, flat list)"""
     if isinstance(x, (list, tuple)):
@@ -119,6 +135,9 @@ class Arr:
 
     def astype(self, dt):
         dt = DType(dt)
+        if getattr(self, "int_valued", False) and dt.name == "int64":
+            # float64 array known to hold integer values (None = nan): the C cast gives the integer when it fits, min int64 otherwise / for nan
+            return Arr("int64", self.shape, [NAT if (v is None or not -2**63 <= v < 2**63) else v for v in self.flat])
         if self.dtype.kind in "Mm" and dt.name == "int64":
             return Arr("int64", self.shape, self.flat)  # reinterpretation: NaT -> min int64
         if self.dtype.kind in "iub" and dt.kind in "iu":
@@ -169,6 +188,17 @@ class Arr:
         else:
             raise Unsupported("broadcasting")
         return shape, [NAT if (a == NAT or b == NAT) else wrap64(op(a, b)) for a, b in zip(sf, of)]
+
+    def __truediv__(self, other):
+        """timedelta array / one unit of itself -> float64 (numpy converts the int64 counts to float64: values beyond 2**53 are rounded)"""
+        if self.dtype.kind == "m" and isinstance(other, Arr) and other.dtype.kind == "m" and other.shape == ():
+            b = other.flat[0]
+            if b == NAT or b * UNIT_NS[other.dtype.unit] != UNIT_NS[self.dtype.unit]:
+                raise Unsupported("timedelta division by anything but one unit of the dividend")
+            out = Arr("float64", self.shape, [None if v == NAT else f64_round_int(v) for v in self.flat])
+            out.int_valued = True
+            return out
+        raise Unsupported("truediv")
 
     def __sub__(self, other):
         if self.dtype.kind == "M" and isinstance(other, Arr) and other.dtype.kind == "M":
@@ -247,6 +277,10 @@ class NP:
     @staticmethod
     def datetime64(value, unit):
         return Arr(f"datetime64[{unit}]", (), [value])
+
+    @staticmethod
+    def timedelta64(value, unit):
+        return Arr(f"timedelta64[{unit}]", (), [value])
 
     @staticmethod
     def asarray(x, dtype=None):
@@ -391,4 +425,17 @@ def conformance():
             if np.array(ref, dtype=a.dtype) != np.datetime64(ref):
                 raise AssertionError("reference text does not round-trip")
         n += 1
-    return {"numpy model vs real numpy through the real codec (arrays)": n}
+    m = 0
+    for x in [0, 1, -1, 2**53 - 1, 2**53, 2**53 + 1, 2**53 + 2, 2**53 + 3, 2**54 + 2, 2**54 + 6, 2**60 + 2**7, 2**60 + 2**7 + 1, 2**62 - 1, -(2**62) + 1, -(2**53) - 1, -(2**53) - 3,
+              1234567890123456789, 2**63 - 1025, 2**63 - 1, -(2**63) + 1]:
+        if f64_round_int(x) != int(float(x)):
+            raise AssertionError(f"f64_round_int({x}) = {f64_round_int(x)} but float64 gives {int(float(x))}")
+        if abs(x) < 2**62:
+            real = (np.array([x, NAT], dtype="timedelta64[us]") / np.timedelta64(1, "us"))
+            with np.errstate(invalid="ignore"):
+                real_i = real.astype("int64").tolist()
+            mine = (Arr("timedelta64[us]", (2,), [x, NAT]) / NP.timedelta64(1, "us")).astype("int64").flat
+            if real_i != mine:
+                raise AssertionError(f"timedelta division model: numpy {real_i} model {mine}")
+        m += 1
+    return {"numpy model vs real numpy through the real codec (arrays)": n, "float64 rounding of integers / timedelta division vs numpy": m}
